@@ -51,6 +51,20 @@ def methods_cases(mcases: Sequence[Dict[str, Any]]) -> List[Dict[str, Any]]:
     return out
 
 
+def shared_cases(mcases: Sequence[Dict[str, Any]]) -> List[Dict[str, Any]]:
+    """Objects in which instances are then shared: the fullest object of every class and its multi-item list variants."""
+    out = []
+    for q, cs in sorted(_plain_cases(mcases).items()):
+        seen = set()
+        for c in [fullest(cs)] + [c for c in cs if c["label"].startswith("value:") and c["label"].endswith("/full")
+                                  and any(isinstance(v, list) and len(v) > 1 for v in c["wire"].values())]:
+            k = workers.canon(c["wire"])
+            if k not in seen:
+                seen.add(k)
+                out.append({"target": q, "label": c["label"], "wire": c["wire"]})
+    return out
+
+
 def eq_cases(mcases: Sequence[Dict[str, Any]]) -> List[Dict[str, Any]]:
     """Pairs of wire objects of one class: equal / different in one member / different only in an unknown member."""
     out = []
@@ -143,3 +157,14 @@ def start(handler: str, configs: Sequence[Dict[str, Any]], groups: Dict[str, Lis
         return answers, audits, hello
 
     return join
+
+
+def unionseq_cases() -> List[Dict[str, Any]]:
+    calls = [[v, i] for v in range(len(modelops.UNION_VIAS)) for i in range(len(modelops.UNION_IDS))]
+    out = [{"calls": [c], "reference": True} for c in calls]
+    out += [{"calls": [a, b], "reference": False} for a in calls for b in calls]
+    return out
+
+
+def describe_union_call(c: List[int]) -> str:
+    return f"{modelops.UNION_VIAS[c[0]]} with id {modelops.UNION_IDS[c[1]]!r}"
